@@ -182,20 +182,25 @@ fn probe_build(func: &str) -> bool {
         ]),
     ];
     for (what, v) in bad {
-        // announced first: if the real code brings the process down (unbounded recursion), the last announcement names the input
-        println!("# trying FXRates::try_new on a degenerate quote set: {}", what);
-        use std::io::Write;
-        let _ = std::io::stdout().flush();
-        let r = std::panic::catch_unwind(std::panic::AssertUnwindSafe(|| FXRates::try_new(v, None).is_ok()));
-        match r {
-            Ok(false) => {}
-            Ok(true) => {
-                report("probe", func, &format!("FXRates::try_new on a degenerate quote set: {}", what), "Ok", "Err", false);
-                return true;
-            }
-            Err(_) => {
-                report("probe", func, &format!("FXRates::try_new on a degenerate quote set: {}", what), "PANIC", "Err", false);
-                return true;
+        // with the default base, with a base among the quoted currencies, and with a base no quote mentions: an error each time
+        for base in [None, Some("usd"), Some("zar")] {
+            // announced first: if the real code brings the process down (unbounded recursion), the last announcement names the input
+            println!("# trying FXRates::try_new on a degenerate quote set: {} (base {:?})", what, base);
+            use std::io::Write;
+            let _ = std::io::stdout().flush();
+            crate::CASES.fetch_add(1, std::sync::atomic::Ordering::Relaxed);
+            let vv = v.clone();
+            let r = std::panic::catch_unwind(std::panic::AssertUnwindSafe(|| FXRates::try_new(vv, base.map(ccy)).is_ok()));
+            match r {
+                Ok(false) => {}
+                Ok(true) => {
+                    report("probe", func, &format!("FXRates::try_new on a degenerate quote set: {} (base {:?})", what, base), "Ok", "Err", false);
+                    return true;
+                }
+                Err(_) => {
+                    report("probe", func, &format!("FXRates::try_new on a degenerate quote set: {} (base {:?})", what, base), "PANIC", "Err", false);
+                    return true;
+                }
             }
         }
     }
